@@ -30,7 +30,7 @@ REGISTRY = {
             "MissingKey/SurplusKey are 'these diagnostics' (DESIGN §10), UnusedForm belongs to C05; plural merging is the "
             "identity on the generated key names; compile-time accessor observation (H3) is not part of this check.",
     "engine": "coq",
-    "packages": [("h_merge", "json"), ("h_merge", "json,suppress")],
+    "packages": [("h_merge", ("json",), "target_merge_json"), ("h_merge", ("json", "suppress"), "target_merge_json_suppress")],
 }
 
 DEFAULT_FIXED = ["G", {"a": ["L", 1], "g": ["G", {"x": ["L", 2], "h": ["G", {"y": ["L", 3]}]}]}]
